@@ -151,6 +151,9 @@ pub fn spools() -> &'static SPools {
         let sc = scalars();
         let tiny: Vec<usize> = sc.iter().enumerate().filter(|(_, s)| s.l[1] == 0 && s.l[2] == 0 && s.l[3] == 0 && s.l[0] < 64).map(|(i, _)| i).collect();
 
+        if cfg!(miri) || std::env::var_os("PP_SIM_CHEAP_POOLS").is_some() {
+            return cheap_pools(sc, tiny);
+        }
         // G1 points
         let a_list: Vec<[u64; 4]> = vec![
             [0, 0, 0, 0],
@@ -292,4 +295,35 @@ pub fn spools() -> &'static SPools {
         enc_g2.push((io_gen::pools().g2_nonsub[0].1.clone(), false));
         SPools { g1, g1p, g1_nsub, g2, g2p, g2_nsub, scalars: sc, tiny, fq, fr, fq2, fq6, fq12, msgs, dsts, enc_g1, enc_g2 }
     })
+}
+
+/// Pools for the Miri engine: the interpreter is ~10^5 times slower than native code, so the
+/// pools avoid full-size scalar multiplications, subgroup checks and most inversions.
+/// Points: O, G, 2G, -G (one inversion per group); no off-subgroup points; no invalid encodings.
+fn cheap_pools(sc: Vec<Scalar>, tiny: Vec<usize>) -> SPools {
+    let mut rng = Rng::new(0x6d69_7269);
+    let g1a = G1Affine::one();
+    let mut d1 = G1::one();
+    d1.double();
+    let mut n1 = g1a;
+    n1.negate();
+    let g1 = vec![G1Affine::zero(), g1a, d1.into_affine(), n1];
+    let g1p: Vec<G1> = vec![G1::zero(), G1::one(), d1, n1.into_projective()];
+    let g2a = G2Affine::one();
+    let mut d2 = G2::one();
+    d2.double();
+    let mut n2 = g2a;
+    n2.negate();
+    let g2 = vec![G2Affine::zero(), g2a, d2.into_affine(), n2];
+    let g2p: Vec<G2> = vec![G2::zero(), G2::one(), d2, n2.into_projective()];
+    let fq = vec![Fq::zero(), Fq::one(), fq_rng(&mut rng), fq_rng(&mut rng)];
+    let fr = vec![Fr::zero(), Fr::one(), fr_from_rng(&mut rng), fr_from_rng(&mut rng)];
+    let fq2 = vec![Fq2::zero(), Fq2::one(), fq2_rng(&mut rng), fq2_rng(&mut rng)];
+    let fq6 = vec![Fq6::zero(), Fq6::one(), fq6_rng(&mut rng)];
+    let fq12 = vec![Fq12::zero(), Fq12::one(), Fq12 { c0: fq6_rng(&mut rng), c1: fq6_rng(&mut rng) }];
+    let msgs: Vec<Vec<u8>> = vec![vec![], b"abc".to_vec(), b"abcdef0123456789".to_vec()];
+    let dsts: Vec<Vec<u8>> = vec![b"QUUX-V01-CS02-with-BLS12381G1_XMD:SHA-256_SSWU_RO_".to_vec(), b"x".to_vec()];
+    let enc_g1: Vec<(Vec<u8>, bool)> = g1.iter().flat_map(|p| vec![(p.into_compressed().as_ref().to_vec(), true), (p.into_uncompressed().as_ref().to_vec(), false)]).collect();
+    let enc_g2: Vec<(Vec<u8>, bool)> = g2.iter().flat_map(|p| vec![(p.into_compressed().as_ref().to_vec(), true), (p.into_uncompressed().as_ref().to_vec(), false)]).collect();
+    SPools { g1_nsub: g1.len(), g1, g1p, g2_nsub: g2.len(), g2, g2p, scalars: sc, tiny, fq, fr, fq2, fq6, fq12, msgs, dsts, enc_g1, enc_g2 }
 }
